@@ -245,6 +245,33 @@ Proof.
     rewrite Hcf', Hcf. cbn. rewrite Hnow. exact Hsp.
 Qed.
 
+(* the vocabulary, unfolded *)
+Lemma quiet_meaning k s s' : quiet k s s' <-> conf s' = conf s /\ Lc s' k = Lc s k /\ (ok s -> ok s').
+Proof. reflexivity. Qed.
+
+Lemma live_inv_meaning k d s rl :
+  live_inv k d s rl <->
+  ok s /\ Lc s k = Some (codec (conf s) rl) /\ durable (codec (conf s) rl) = d /\ r_ref rl = None.
+Proof. reflexivity. Qed.
+
+Lemma always_served_meaning k d x t s :
+  always_served k d (x :: t) s <->
+  forall s1, quiet k s s1 -> now s1 = a_time x ->
+    exists s' o ob,
+      start s1 (mkReq (CKey k) (a_create x) (a_addr x) (a_ua x)) = (s', Ok (Some o), []) /\
+      hget s' o = Some ob /\ o_id ob = k /\ durable (codec (conf s) (o_rec ob)) = d /\
+      always_served k d t s'.
+Proof. reflexivity. Qed.
+
+Lemma spaced_meaning c created tlast alast ulast x t :
+  spaced c created tlast alast ulast (x :: t) <->
+  (a_time x - tlast + slack c < c_expiry c)%Z /\
+  ip_ok (c_acceptip c) alast (a_addr x) = true /\
+  ua_ok (c_acceptua c) ulast (a_ua x) = true /\
+  (c_idexpiry c <=? since created (a_time x))%Z = false /\
+  spaced c created (a_time x) (a_addr x) (a_ua x) t.
+Proof. reflexivity. Qed.
+
 (* ------------------------------------------------------------ examples *)
 
 Module Examples5.
@@ -252,7 +279,12 @@ Module Examples5.
 
   Definition r0 : rec := mkRec 0 0 peer 7 None None (Some []).
 
-  Lemma made1_ok : ok (made 1).
+  Definition m1 : st := Eval vm_compute in made 1.
+
+  Lemma m1_is_run : m1 = made 1.
+  Proof. vm_compute. reflexivity. Qed.
+
+  Lemma made1_ok : ok m1.
   Proof.
     split; [reflexivity|]. split.
     - intros k o H. vm_compute in H. destruct k as [n|n]; [|discriminate].
@@ -260,15 +292,25 @@ Module Examples5.
     - vm_compute. constructor; [intros []|constructor].
   Qed.
 
-  Example made1_live : live_inv (KGen 0) (durable r0) (made 1) r0.
-  Proof. split; [exact made1_ok|]. repeat split. Qed.
+  Example made1_live : live_inv (KGen 0) (durable r0) m1 r0.
+  Proof.
+    split; [exact made1_ok|]. split; [vm_compute; reflexivity|]. split; vm_compute; reflexivity.
+  Qed.
 
   (* requests at 60, 150, 240 (gaps 60, 90, 90 < 100), the peer drifting in
      the last octets only, the agent unchanged *)
   Example spaced_example :
-    spaced (conf (made 1)) 0 0 peer 7
+    spaced (conf m1) 0 0 peer 7
            [mkAReq 60 peer 7 false; mkAReq 150 peer' 7 false; mkAReq 240 (V4 10 0 200 1 9) 7 true].
   Proof. vm_compute. repeat split. Qed.
+
+  Example live_run_applies :
+    always_served (KGen 0) (durable r0)
+      [mkAReq 60 peer 7 false; mkAReq 150 peer' 7 false; mkAReq 240 (V4 10 0 200 1 9) 7 true] m1.
+  Proof.
+    apply (live_run _ _ _ m1 r0 made1_live); try (vm_compute; congruence).
+    exact spaced_example.
+  Qed.
 
   (* a run of the model that is an instance: eviction by another client's
      session between the requests (cache size 1) *)
@@ -282,7 +324,10 @@ Module Examples5.
 
   (* the hypotheses of the per-call theorems hold together in a state produced
      by the model (two sessions, one evicted to the store) *)
-  Definition s2 := StartLaws3.Examples.s2.
+  Definition s2 : st := Eval vm_compute in StartLaws3.Examples.s2.
+
+  Lemma s2_is_run : s2 = StartLaws3.Examples.s2.
+  Proof. vm_compute. reflexivity. Qed.
 
   Lemma s2_cache_ok : cache_ok s2.
   Proof.
